@@ -436,7 +436,11 @@ def rowViolation (run : Run) (r : Row) : Option String :=
     let protTermKeys := (cfg.statics.map (·.1) ++ cfg.vars.map (·.1)).any (fun k => k.head? == some 91 || k.head? == some 93)
     let exempt := protTermKeys && (p.nterm.isSome || p.cterm.isSome || (p.residues.head?.bind (·.2)).isSome
                     || (p.residues.getLast?.bind (·.2)).isSome)
-    let candidates := run.fasta.filter (fun (a, _) => !(cfg.genDecoys && startsWith a cfg.decoyTag))
+    -- (with FASTA-supplied decoys only records of the row's own class are demanded: a peptide shared by a
+    --  target and a decoy-tagged protein is reported as a target listing its target proteins — C01 asks for
+    --  agreement of the columns, not for decoy proteins on target rows)
+    let candidates := run.fasta.filter (fun (a, _) =>
+      if cfg.genDecoys then !(startsWith a cfg.decoyTag) else (startsWith a cfg.decoyTag == decoy))
     let missing := candidates.filter (fun (a, s) =>
       isLegalProduct cfg s targetSeq && !(names.any (fun n => accOf n == a)))
     if !exempt && !missing.isEmpty then some "protein_list_incomplete" else
